@@ -134,7 +134,50 @@ def to_dist(rs):
         d["inadequate_schedule"] += not (m in ps and all(a < b for a, b in zip(ps, ps[1:])))
     return d
 
+def wire_nontrivial(r):
+    t = r["input"].split()
+    return t[1] == "req" and t[4] != "-" and t[5] != "-"
+
+def wire_dist(rs):
+    d = {"req_h1": 0, "req_h2": 0, "proto": 0, "connect": 0, "relative_uri": 0, "default_port_explicit": 0, "ipv6": 0,
+         "empty_path": 0, "caller_host": 0, "connection_headers": 0, "sent": 0, "err_invalid_method": 0, "panic": 0}
+    for r in rs:
+        t = r["input"].split()
+        if t[1] == "proto":
+            d["proto"] += 1
+            continue
+        d["req_h1" if t[2] == "11" else "req_h2"] += 1
+        d["connect"] += t[3] == "CONNECT"
+        d["relative_uri"] += t[4] == "-"
+        d["default_port_explicit"] += (t[4] in ("http", "ws") and t[6] == "80") or (t[4] in ("https", "wss") and t[6] == "443")
+        d["ipv6"] += t[5].startswith("[")
+        d["empty_path"] += t[7] == "-"
+        d["caller_host"] += any(h.startswith("host=") for h in t[10:])
+        d["connection_headers"] += any(h.split("=")[0] in ("connection", "proxy-connection", "keep-alive", "transfer-encoding", "upgrade") for h in t[10:])
+        o = r["obs"].split()[0]
+        d["sent" if o == "sent" else "err_invalid_method" if o == "err-invalid-method" else "panic"] += 1
+    return d
+
 PROPS = {
+    "C13": {
+        "props_module": "HdModel.Props.C13",
+        "class_prefix": ["C13/"],
+        "theorems": ["Hd.Wire.C13_protocol_choice", "Hd.Wire.C13_requested", "Hd.Wire.C13_h1_target", "Hd.Wire.C13_h1_host",
+                     "Hd.Wire.C13_host_value", "Hd.Wire.C13_h2_sanitised", "Hd.Wire.C13_h2_connect_rejected"],
+        "streams": [
+            {"name": "wire", "quick": 5000, "thorough": 100000, "head": 10, "unit": 1, "batch": 5000,
+             "nontrivial": wire_nontrivial, "distribution": wire_dist},
+        ],
+        "rule": "requests from a grammar (11 methods incl. CONNECT and an extension method, schemes http/https/ws/wss/foo/none, hosts "
+                "names/IPv4/bracketed IPv6/none, ports absent/80/443/8080/8443/random, 9 paths incl. empty, 5 queries, all five "
+                "version constants, 0-4 pre-set headers incl. Host and the five connection headers) through the public layers in "
+                "builder order around a real HttpConnection over a duplex whose raw peer records the HTTP/1 request head on the wire, "
+                "or a stub HTTP/2 connection; plus request version x ALPN through HttpConnectionBuilder. non-trivial = absolute URI",
+        "assumes": ["http crate: Uri/HeaderMap parsing and printing; header order between different names is not significant",
+                    "hyper's HTTP/1 encoder writes the request target and headers it is given (observed on the wire); "
+                    "hyper's HTTP/2 client is replaced by a stub so that hyperdriver's own header stripping is what is observed",
+                    "harness is a debug build: the debug_assert! sites of absolute_form are live (model parameter dbg = true)"],
+    },
     "C19": {
         "props_module": "HdModel.Props.C19",
         "class_prefix": ["C19/"],
